@@ -259,7 +259,10 @@ pub struct World {
 	pub interference_left: Cell<u32>,
 	pub ops: Cell<u32>,
 	pub fault_at: Cell<u32>,
+	/// one-shot fault chosen lazily: at every raw operation a fresh symbolic bit decides whether it panics
+	pub fault_armed: Cell<bool>,
 	pub fault_fired: Cell<bool>,
+	pub fault_kind: Cell<u32>,
 	pub faulted_lock: Cell<u8>,
 	pub evil_lock: [Cell<u8>; 2],
 	pub evil_class: [Cell<u8>; 2],
@@ -297,7 +300,9 @@ pub static WORLD: SyncWorld = SyncWorld(World {
 	interference_left: Cell::new(u32::MAX),
 	ops: Cell::new(0),
 	fault_at: Cell::new(NO_FAULT),
+	fault_armed: Cell::new(false),
 	fault_fired: Cell::new(false),
+	fault_kind: Cell::new(0),
 	faulted_lock: Cell::new(NOID),
 	evil_lock: [Cell::new(NOID), Cell::new(NOID)],
 	evil_class: [Cell::new(0), Cell::new(0)],
@@ -330,7 +335,9 @@ impl World {
 		self.interference_left.set(u32::MAX);
 		self.ops.set(0);
 		self.fault_at.set(NO_FAULT);
+		self.fault_armed.set(false);
 		self.fault_fired.set(false);
+		self.fault_kind.set(0);
 		self.faulted_lock.set(NOID);
 		self.evil_lock[0].set(NOID);
 		self.evil_lock[1].set(NOID);
@@ -402,9 +409,12 @@ impl World {
 		}
 		#[cfg(not(kani))]
 		{
-			if n == self.fault_at.get() {
+			if n == self.fault_at.get()
+				|| (self.fault_armed.get() && !self.fault_fired.get() && any_bool(T_FAULT_AT | (n & 0xff)))
+			{
 				self.fault_fired.set(true);
 				self.faulted_lock.set(id);
+				self.fault_kind.set(kind);
 				eng::event(E_FAULT, kind, id as u32);
 				eng::inject_panic();
 			}
@@ -417,6 +427,7 @@ impl World {
 				|| (self.evil_lock[1].get() == id && self.evil_class[1].get() & class != 0)
 			{
 				self.fault_fired.set(true);
+				self.fault_kind.set(kind);
 				eng::event(E_FAULT, kind, id as u32);
 				eng::inject_panic();
 			}
